@@ -109,6 +109,8 @@ pub open spec fn grouped(mats: Seq<MatIn>, ops: Seq<Vec<Target>>, log_blowup: us
 pub open spec fn point_counts_ok(mats: Seq<MatIn>, ops: Seq<Vec<Target>>, n: int) -> bool {
     forall|i: int, p: int| 0 <= i < n && 0 <= p < mats[i].1@.len() ==> (#[trigger] mats[i].1@[p]).1@.len() == ops[i]@.len()
 }
+/// C15 / C07: every committed matrix is opened at one point at least (native: MatrixWithoutOpeningPoints)
+pub open spec fn points_present(mats: Seq<MatIn>, n: int) -> bool { forall|i: int| 0 <= i < n ==> (#[trigger] mats[i]).1@.len() > 0 }
 pub open spec fn groups_from(g: Map<usize, Seq<MatTV>>, mats: Seq<MatIn>, ops: Seq<Vec<Target>>, n: int) -> bool {
     forall|h: usize, j: int| g.dom().contains(h) && 0 <= j < g[h].len() ==> exists|i: int| 0 <= i < n && (#[trigger] g[h][j]) == (ops[i]@, mats[i].1@)
 }
@@ -208,7 +210,7 @@ def build():
     sh.rewrite_re('R6', r'height_groups\s*\.entry\(log_height\)\s*\.or_default\(\)\s*\.push\(', 'height_groups.push_at(log_height, ', min_count=1)
     sh.requires('heights_fit', 'forall|i: int| 0 <= i < mats@.len() ==> (#[trigger] mats@[i]).0.log_n + log_blowup < 0x1_0000_0000')
     sh.ensures('ok_iff_one_opened_row_per_matrix_and_one_value_per_column_at_EVERY_opening_point',
-               'ret is Ok <==> (mats@.len() == batch_openings@.len() && point_counts_ok(mats@, batch_openings@, mats@.len() as int))')
+               'ret is Ok <==> (mats@.len() == batch_openings@.len() && point_counts_ok(mats@, batch_openings@, mats@.len() as int) && points_present(mats@, mats@.len() as int))')
     sh.ensures('matrices_filed_under_their_height_in_order', "ret matches Ok(g) ==> g.m@ == grouped(mats@, batch_openings@, log_blowup, mats@.len() as int) && groups_from(g.m@, mats@, batch_openings@, mats@.len() as int)")
     LOOP = 'for mat_idx in 0..mats.len()'
     sh.at_loop_end(LOOP, '''proof {
@@ -229,7 +231,7 @@ def build():
         ])
     sh.loop(LOOP, invariants=[
         ('ctx', 'mats@.len() == batch_openings@.len() && forall|i: int| 0 <= i < mats@.len() ==> (#[trigger] mats@[i]).0.log_n + log_blowup < 0x1_0000_0000'),
-        ('checked_prefix', 'point_counts_ok(mats@, batch_openings@, mat_idx as int)'),
+        ('checked_prefix', 'point_counts_ok(mats@, batch_openings@, mat_idx as int) && points_present(mats@, mat_idx as int)'),
         ('grouped_prefix', "height_groups.m@ == grouped(mats@, batch_openings@, log_blowup, mat_idx as int) && groups_from(height_groups.m@, mats@, batch_openings@, mat_idx as int)"),
     ])
     u.text('verus! { mod shape_slice { use super::*;')
